@@ -1019,6 +1019,24 @@ func (r *runner) explainMissing(q Query, missing []map[string]any, driving []*F)
 			add(sigNlikeNull, func(row map[string]any) bool { return row[sel] == nil })
 		}
 		// JSON conditions evaluated against index leaves instead of the value the filter names
+		// the same like matcher under _any: an array at the path holding a non-string element
+		if fd.Kind == "json" && l.Arr == "_any" && negLike {
+			add(sigJSONNlikeNonString, func(row map[string]any) bool {
+				v, found := jsonAt(row["j"], l.Path)
+				arr, ok := v.([]any)
+				if !found || !ok {
+					return false
+				}
+				for _, e := range arr {
+					switch e.(type) {
+					case string, map[string]any, []any:
+					default:
+						return true
+					}
+				}
+				return false
+			})
+		}
 		if fd.Kind == "json" && l.Arr == "" {
 			// a condition on the JSON value itself (no path) other than equality: the operand is
 			// encoded as a plain scalar and matched against every leaf at any path
@@ -1088,7 +1106,9 @@ func (r *runner) explainDuplicated(q Query, dup []map[string]any, driving []*F) 
 		walkLeaves(q.Filter, false, func(l *F, underNot bool) {
 			// a negated operator (or an empty list) gives the index nothing to seek by: the index is
 			// still walked entry by entry in its own order
-			negated := l.Cmp == "_ne" || l.Cmp == "_nin" || l.Cmp == "_nlike" || l.Cmp == "_nilike" || (l.Cmp == "_in" && len(l.Vals) == 0)
+			// (an _in list is served by its own iterator, one index scan per listed value, which is not
+			// wrapped by the de-duplicating iterator either)
+			negated := l.Cmp == "_ne" || l.Cmp == "_nin" || l.Cmp == "_nlike" || l.Cmp == "_nilike" || l.Cmp == "_in"
 			if leafKey(l) == first && !underNot && !negated && !underMultiOr(q.Filter, l, false) {
 				firstFieldCondition = true
 			}
